@@ -425,8 +425,24 @@ outer:
 				}
 				wantKey := wire.LongTermKey(c.User, b.Realm, c.Pass)
 				pan = bubble(t, func() {
+					// the handler is built at an instant that is no whole second (a server starts whenever it starts)
+					insts := instants(stamp, ens)
+					if len(insts) > 0 && insts[0]-time.Now().UnixNano() > int64(time.Second) {
+						time.Sleep(850 * time.Millisecond)
+					}
 					h := handler(b.Kind, b.Secret)
-					for _, at := range instants(stamp, ens) {
+					if b.Kind == "rest" && strings.Contains(c.User, ":") {
+						// a REST credential ("<timestamp>:<user id>") is no credential of the plain handler, whose user
+						// names are timestamps and nothing else: it does not authenticate there, whatever the time
+						uid, key, ok := call(handler("lt", b.Secret), c.User, b.Realm)
+						r.Evaluations++
+						lc[fmt.Sprintf("cross:rest-credential-at-plain-handler|ok=%v", ok)]++
+						if authenticates(c.User, b.Realm, c.Pass, ok, key) {
+							r.Violate(rep.Violation{Oracle: "a username with a non-numeric timestamp never authenticates", Signature: "cross:rest-credential-authenticates-at-the-plain-handler",
+								Detail: fmt.Sprintf("username %q: ok=%v user id %q", c.User, ok, uid), Replay: wc})
+						}
+					}
+					for _, at := range insts {
 						sleepTo(at)
 						now := time.Now()
 						if now.UnixNano() != at {
